@@ -4,6 +4,7 @@ import LogicaModel.TypeAlg
 import LogicaModel.OrderLimit
 import LogicaModel.Concertina
 import LogicaModel.Udf
+import LogicaModel.SemJson
 /-! Request handlers of the line-protocol driver (executable definitions of the models only). -/
 open Lean
 
@@ -200,6 +201,7 @@ def handle (j : Json) : Except String Json := do
   else if ["clauses", "eval_ordered"].contains op then handleOrderLimit op j
   else if ["concertina", "concertina_requires"].contains op then handleConcertina op j
   else if ["argk", "range_cte"].contains op then handleUdf op j
+  else if op == "denote" then Sem.handleDenote j
   else throw ("unknown op " ++ op)
 
 end Logica.Ops
